@@ -68,6 +68,7 @@ NEAR = ["rgb(", "rgb()", "rgb(1,2)", "rgb(1,2,3", "rgb(1 2 3)", "rgb(1,2,3,4,5)"
         "hsla(120,50%,50%,nan)", "hsla(inf,50%,50%,0.5)", "#", "#12", "#1234", "#12345", "#1234567", "#ggg", "##fff", "# fff", "fff", "ffff",
         "12345", "123456", "abcdef", "abcdeg", "inherit", "transparent", "currentcolor", "initial", "var(--x)", "var(--x, #fff)", "none", "",
         " ", "red;", "re d", "1,2,3", "1 2 3", "(1,2,3)", "(1,2,3,0.5)", "1,2", "1,2,3,4", "255,255,256", "0.5,0.5,0.5", "50%,50%,50%", "a,b,c",
+        "#-12345", "#+12345", "#-fffff", "-12345", "#1_2345", "#0x123", "# 12345", "#12 345", "#١٢٣", "#１２３４５６", "#ＡＢＣ",
         ",", " , ", "rgb 1 2 3", "rgb (1,2,3)", "RGB(1,2,3)", "Rgb(1, 2, 3)", "rgb(1,2,3))", "rgb((1,2,3))", "rgb(1.5,2.5,3.5)", "rgb(0.5,0.5,0.5)",
         "rgb(+1,+2,+3)", "rgb(1,,2,3)", "rgb(1;2;3)", "color(srgb 1 0 0)", "hwb(0 0% 0%)", "lab(50% 0 0)", "#fff fff", "red blue", "ＲＥＤ", "blacK"]
 
@@ -90,7 +91,7 @@ def near_miss(rng):
     return s
 
 
-ATOMS = [0, 1, 2, 127, 128, 255, 256, 300, 360, 361, -1, -255, 1000, 2 ** 31, 2 ** 62, -2 ** 62,
+ATOMS = [0, 0, 1, 1, 2, 127, 128, 255, 256, 300, 360, 361, -1, -255, 1000, 2 ** 31, 2 ** 62, -2 ** 62,
          0.0, 1.0, 0.5, 0.25, 0.999, 1.0000001, 1.5, 2.0, 100.0, 127.5, 254.5, 255.0, 255.5, 359.9, 360.0, 360.5, -0.0, -0.5, 1e-9, 1e9, 1e300,
          float("nan"), float("inf"), float("-inf"),
          "", "0", "1", "255", "256", "0.5", "50%", "100%", "101%", "-5%", "abc", " 12 ", "1e2", "nan", "inf", "0x10", "1_0", "٣", "12px", "%",
@@ -98,6 +99,11 @@ ATOMS = [0, 1, 2, 127, 128, 255, 256, 300, 360, 361, -1, -255, 1000, 2 ** 31, 2 
 
 
 def typed_seq(rng):
+    if rng.random() < 0.08:
+        # sequences of very small ints / empty strings: where type heuristics (0/1 as "normalised"?) go wrong
+        n = rng.choice([3, 4])
+        items = [rng.choice([0, 1, 0, 1, 2, "", " ", "0", "1"]) for _ in range(3)] + ([rng.choice([0.9, 0.5, 1, 0, "", 1.0])] if n == 4 else [])
+        return tuple(items) if rng.random() < 0.6 else items
     n = rng.choice([0, 1, 2, 3, 3, 3, 3, 4, 4, 4, 4, 5, 6])
     items = []
     for _ in range(n):
